@@ -176,7 +176,7 @@ class C11(Prop):
             m = r.meta
             head = ('#[::derive_ex::derive_ex(%s)]\n' % r.attr) if r.mode == 'A' else '#[derive(::derive_ex::Ex)]\n'
             ty = 'E' if m['enum'] else 'X'
-            src = ['#[derive(Debug, PartialEq)]\n' + head + r.item]
+            src = [l2.decl('#[derive(Debug, PartialEq)]\n' + head, r.item, r.cid)]
             if m['type_value']:
                 some = _ctor(m, m['dv'] if m['enum'] else 0, lambda ft, e, ref: '<%s as Default>::default()' % ft[1])
                 src.append('impl %s { pub fn make() -> Self { %s } }' % (ty, some))
